@@ -117,7 +117,10 @@ func (p Polygon) Centroid() Point {
 		a := signedarea(r)
 		cx, cy := 0., 0.
 		if r[len(r)-1] != r[0] {
-			r = append(r, r[0])
+			// Close a copy: appending to r itself would write into the caller's
+			// backing array when r has spare capacity (e.g. rings that are
+			// windows of one coordinate buffer).
+			r = append(r[:len(r):len(r)], r[0])
 		}
 		for i := 0; i < len(r)-1; i++ {
 			cx += (r[i].X + r[i+1].X) *
